@@ -994,6 +994,26 @@ impl CodegenContext {
                         };
 
                         for (to_export_nx, new_parent_nx, new_path, span) in to_export {
+                            // A name that is new here may hide one with the same name in an enclosing scope. Whatever
+                            // referred to that name earlier in this pass was bound to the outer symbol, so that needs
+                            // another pass.
+                            if new_parent_nx == self.current_scope_nx
+                                && self.symbols.try_index(new_parent_nx, &new_path).is_none()
+                            {
+                                let hides_outer_symbol = self
+                                    .symbols
+                                    .parent(new_parent_nx)
+                                    .map(|outer_nx| self.symbols.query(outer_nx, &new_path).is_some())
+                                    .unwrap_or(false);
+                                if hides_outer_symbol {
+                                    self.changed.insert(UndefinedSymbol {
+                                        scope_nx: new_parent_nx,
+                                        id: new_path.clone(),
+                                        span: Some(span),
+                                    });
+                                }
+                            }
+
                             if self.symbols.export(to_export_nx, new_parent_nx, &new_path) {
                                 if add_symbol_usages {
                                     log::trace!(
